@@ -95,6 +95,12 @@ def r1(repo, res):
         kind, val = ev.run(_body(f))
         if kind != "return" or abs(val - (2.0 * 3.0 + 5.0)) > 1e-12:
             bad = bad or f"coefficient lookup: returned {val}, expected 11.0"
+        # an explicit weight of 0 (or a fractional one) is a weight, not "missing"
+        for w, want in ((0, 5.0), (0.5, 6.5)):
+            rec = Recorder([3.0, 5.0], names={10: "E_pce", 20: "E_x"})
+            kind, val = Evaluator({"self": rec.obj(), "vars": [10, 20], "coeffs": {"E_pce": w}}).run(_body(f))
+            if kind != "return" or abs(val - want) > 1e-12:
+                bad = bad or f"coefficient {w} for E_pce: returned {val}, expected {want}"
     except (Unfoldable, Raised) as e:
         res.err("C05.R1", f"abssum outside folding language: {e}")
         return
@@ -474,6 +480,8 @@ MUTANTS = [
          old='            self.addConstr(absvar - v >= 0, name=f"CABSR_{i}")', new='            self.addConstr(absvar + v >= 0, name=f"CABSR_{i}")'),
     dict(name="R1 abssum drops coefficients", module="lpinterface", expect="C05.R1",
          old="            vv.append(coeff * absvar)", new="            vv.append(absvar)"),
+    dict(name="R1 abssum zero weight treated as missing (seeded C05_3 shape)", module="lpinterface", expect="C05.R1",
+         old="            coeff = 1 if coeffs is None or name not in coeffs else coeffs[name]", new="            coeff = (coeffs or {}).get(name) or 1"),
     dict(name="R1 abssum subtracted from the objective", module="cn", expect="C05.R1",
          old="    model.setObjective(o_diff + o_fit + o_pars)", new="    model.setObjective(o_diff - o_fit + o_pars)"),
     dict(name="R2 prod constant changed", module="lpinterface", expect="C05.R2",
